@@ -437,11 +437,31 @@ def clause_e(ctx: Context, idx) -> None:
                             or (isinstance(x, ast.Call) and isinstance(x.func, ast.Attribute) and x.func.attr in ("get", "setdefault")
                                 and isinstance(x.func.value, ast.Name) and x.func.value.id == d)
                             for x in ast.walk(st.value))
+                        # `if b.outcome in d: <accumulate> else: d[b.outcome] = first` - the store only creates the entry
+                        guarded = False
+                        for iff in ast.walk(loop):
+                            if isinstance(iff, ast.If) and isinstance(iff.test, ast.Compare) and len(iff.test.ops) == 1 \
+                                    and norm(iff.test.left) == f"{b}.outcome" and norm(iff.test.comparators[0]) == d:
+                                branch_ = iff.orelse if isinstance(iff.test.ops[0], ast.In) else (iff.body if isinstance(iff.test.ops[0], ast.NotIn) else [])
+                                if any(st is x for s_ in branch_ for x in ast.walk(s_)):
+                                    guarded = True
                         key = f"{m.qualname}|{d}[{b}.outcome]"
-                        ok = accumulates or per_sample == 0
+                        ok = accumulates or guarded or per_sample == 0
                         ctx.obligation("C03e", key, ok, f"{ctx.relpath(m.file)}:{st.lineno}")
                         if not ok:
                             ctx.violation("C03e", key, m.file, st.lineno,
                                           f"`{norm(st)[:70]}` overwrites the entry of an earlier branch with the same outcome; {per_sample} steps build one "
                                           f"branch per sample, so the counts of a result do not sum to the number of shots", norm(st)[:100])
+        # a comprehension keyed by the outcome cannot accumulate
+        for comp in walk_no_nested(m.node):
+            if isinstance(comp, ast.DictComp) and len(comp.generators) == 1 and isinstance(comp.generators[0].target, ast.Name) \
+                    and "branches" in norm(comp.generators[0].iter) and norm(comp.key) == f"{comp.generators[0].target.id}.outcome":
+                n += 1
+                key = f"{m.qualname}|dict comprehension keyed by the outcome"
+                ok = per_sample == 0
+                ctx.obligation("C03e", key, ok, f"{ctx.relpath(m.file)}:{comp.lineno}")
+                if not ok:
+                    ctx.violation("C03e", key, m.file, comp.lineno,
+                                  f"a dictionary comprehension keyed by `{norm(comp.key)}` keeps only the last branch of each outcome; {per_sample} steps "
+                                  f"build one branch per sample, so the frequency it reports for an outcome is that of one sample", norm(comp)[:100])
     ctx.require_floor("C03e stores keyed by a branch's outcome in Result", n, 1)
